@@ -44,6 +44,19 @@ def check(chk):
     _drain_chain(chk, repo)
     _end_requests_unconditional(chk, repo)
     _per_game_limits(chk, repo)
+    # a slam tilt always ends the game: whenever there is a game, slam_tilt() marks it slam tilted - also during a running tilt or while the
+    # game is ending (the mark is what makes the loop end the game instead of rotating to the next ball)
+    from sa.cfg import canon_set as _cs6, canon_fact as _cf6
+    from sa.helpers import positive as _pos6
+    stf = repo.func("mpf/modes/tilt/code/tilt.py", "Tilt.slam_tilt")
+    chk.analysed(stf)
+    scfg_ = stf.cfg()
+    mk_ = [n for n in scfg_.nodes if n.kind == "stmt" and isinstance(n.ast, ast.Assign) and src(n.ast.targets[0]) == "self.machine.game.slam_tilted" and src(n.ast.value) == "True"]
+    chk.need(mk_, "DOM-13", "Tilt.slam_tilt marks the game slam tilted", stf)
+    for n in mk_:
+        got = _pos6(set(_cs6(scfg_.guards_at(n.id))))
+        chk.ob("DOM-13", "a slam tilt marks the game slam tilted whenever there is a game (nothing else decides)", got == _pos6({_cf6("self.machine.game", True)}), stf.where(n.ast),
+               detail="marked under %s" % sorted(got), construct=stf.ident, text="slam tilt mark condition")
     from sa.helpers import game_ended_only_through_its_api
     game_ended_only_through_its_api(chk, "PAIR-7")
     _game_end_waits(chk)
@@ -591,6 +604,7 @@ def _game_end_waits(chk):
 def battery():
     from sa.battery import M
     return [
+        M("slam tilt ignored during a tilt", "mpf/modes/tilt/code/tilt.py", "        if not self.machine.game:\n            return\n\n        self.machine.game.slam_tilted = True", "        if not self.machine.game or self.machine.game.tilted:\n            return\n\n        self.machine.game.slam_tilted = True", "DOM-13"),
         M("balls per game read once per machine run", GM, "        self.balls_per_game = self.machine.config['game']['balls_per_game'].evaluate([])", "        if self.balls_per_game is None:\n            self.balls_per_game = self.machine.config['game']['balls_per_game'].evaluate([])", "LIMIT-6"),
         M("second end_game request ignored", GM, "        self.ending = True\n        self.end_ball()\n\n    def _game_ending_completed", "        if self.ending:\n            return\n        self.ending = True\n        self.end_ball()\n\n    def _game_ending_completed", "END-6"),
         M("twin: ending flag set only when clear", GM, "        self.ending = True\n        self.end_ball()\n\n    def _game_ending_completed", "        if not self.ending:\n            self.ending = True\n        self.end_ball()\n\n    def _game_ending_completed", None),
